@@ -765,10 +765,14 @@ pub fn batch(a: &Args, tier: &str, runs: u64, shards: u64, out_dir: &Path) -> Re
         fired_j.put(k, J::Int(*fired.get(*k).unwrap_or(&0)));
     }
     let not_injected = J::Arr(
-        ["message loss/duplication/reordering", "partitions", "disk errors / torn or lost writes", "allocation failure"]
-            .iter()
-            .map(|s| J::s(format!("{s}: not injected — educe has no network, disk or durable state, and an allocation failure aborts rather than changing a token stream")))
-            .collect(),
+        [
+            "message loss/duplication/reordering, partitions: not injected — educe has no network or peers",
+            "disk errors (EIO, ENOSPC): not injected — educe does no I/O; the simulator does own a disk and injects wipes (fs_wipe) and torn files (fs_tear), which find nothing to act on on this tree (see file_opens_during_expansion and files_actually_torn_by_fs_tear)",
+            "allocation failure: not injected — it aborts the process rather than changing a token stream",
+        ]
+        .iter()
+        .map(|s| J::s(*s))
+        .collect(),
     );
     let first = &results[0];
     let coverage = J::obj()
